@@ -66,6 +66,32 @@ def reference_comments(text: str):
     return out
 
 
+# characters that belong to no token of the language when they stand outside comments and character strings
+NO_TOKEN_CHARS = set('?$@!~`\\|^\u00a0\u2028\u2029\u0085\x0b\x00\x7f')
+
+
+def has_no_token_text(text: str):
+    """True when the text holds, outside comments and character strings, a character that no token can contain (or a
+    carriage return that is not part of CR LF); None where the lexical rules alone do not decide (see reference_comments)"""
+    if reference_comments(text) is None: return None
+    i, n = 0, len(text)
+    while i < n:
+        if text.startswith('(*', i): i = text.find('*)', i + 2) + 2
+        elif text[i] in '\'"': i = text.find(text[i], i + 1) + 1
+        else:
+            c = text[i]
+            if c in NO_TOKEN_CHARS or (c == '\r' and text[i + 1:i + 2] != '\n'): return True
+            i += 1
+    return False
+
+
+def invalid_text_oracle(text: str, toks, errs):
+    """text that holds something that is no token has a lexical error"""
+    if has_no_token_text(text) and not errs:
+        return ['the text holds characters that belong to no token (outside comments and strings) but the lexer reports no lexical error']
+    return []
+
+
 def comment_oracle(text: str, toks, errs):
     """the Comment tokens of the implementation are exactly the comments of the text"""
     ref = reference_comments(text)
@@ -120,4 +146,4 @@ def token_oracle(text: str, toks, errs, check_linecol=True):
             el, ecs = line_col_candidates(b, s)
             if l != el or c not in ecs:
                 out.append(f'{ty} at byte {s}: reported line {l} col {c}, span start is line {el} col {sorted(ecs)}')
-    return out + comment_oracle(text, toks, errs)
+    return out + comment_oracle(text, toks, errs) + invalid_text_oracle(text, toks, errs)
